@@ -18,7 +18,7 @@ EXPLANATION = ('llsym (real-algebraic) runs the real mj_fwdActuation on models w
                'force = gain * input + bias with the documented affine formulas and input = ctrl, act or the next activation (actearly); a disabled group yields zero force; the force is clamped to forcerange iff forcelimited; '
                'qfrc_actuator = moment^T force, clamped per joint iff jnt_actfrclimited; with mjDSBL_ACTUATION everything is zero; nothing else in mjData changes.')
 BOUNDS = {'quick': {'actuators': '2 under test behind a disabled SO(3) actuator (3 controls, 3 outputs) and a passive actuator without inputs, so that actuator id, control address and output address all differ (plus one plain 2-actuator layout)', 'dofs': 2, 'moment': 'sparse rows [dof0, dof1] and [dof1]'}, 'thorough': {'same': 'plus both actuators stateful, actuator order swapped'}}
-OUTSIDE = ('muscle gain/bias/dynamics, DC-motor, PID-servo, SO(3) and user/plugin actuators; delayed controls (history buffer); rotational setpoint wrapping (ball joints / refsite transmissions); tendon total-force limits; '
+OUTSIDE = ('muscle gain/bias curves (the activation dynamics mju_muscleDynamics IS covered), DC-motor, PID-servo, SO(3) and user/plugin actuators; delayed controls (history buffer); rotational setpoint wrapping (ball joints / refsite transmissions); tendon total-force limits; '
            'actuator-level gravity compensation; sleeping actuators; mj_transmission (lengths and moment arms are inputs here); NaN controls (real-number semantics: bad = magnitude above mjMAXVAL).')
 ASSUMPTIONS = ['real-number semantics', 'ctrlrange, forcerange, actrange and jnt_actfrcrange have lo <= hi', 'limited flags are 0/1 bytes', 'mj_warning does not change the data used afterwards (it is stubbed as a no-op and logged)',
                'mj_stackAllocInfo returns a fresh block (its own contract is C19)', 'mjcb_time not installed']
@@ -37,12 +37,17 @@ def so():
     return _c['so']
 
 
+def so_asan():
+    if 'soa' not in _c: _c['soa'] = build.native_lib(['src/engine/engine_forward.c'], SUP, name='forward_act_asan', extra_c=STUB_C, redirect=['mj_warning'], sanitize=True)
+    return _c['soa']
+
+
 def lay():
     if 'l' not in _c: _c['l'] = build.Layout()
     return _c['l']
 
 
-def prepare(tier): mod(); so(); lay()
+def prepare(tier): mod(); so(); lay(); mod_misc(); so_misc(); so_asan()
 
 
 def I(v): return z3.BitVecVal(v, 32)
@@ -54,7 +59,7 @@ FAMILY = {   # which switches stay symbolic in a unit; everything numeric (contr
     'ctrl': ('actuator_ctrllimited', 'clampflag'), 'force': ('actuator_forcelimited', 'actuator_actearly', 'actuator_actlimited', 'actuator_group'), 'qfrc': ('jnt_actfrclimited',), 'off': ('actuationflag',)}
 
 
-def unit_act(tier, gain, bias, dyn, dyn1='mjDYN_NONE', family='force', shifted=True):
+def unit_act(tier, gain, bias, dyn, dyn1='mjDYN_NONE', family='force', shifted=True, ball=False):
     """actuators under test: A (gain/bias/dyn as given) and a fixed-gain motor. With `shifted`, a disabled SO(3) actuator (3 controls, 3 outputs) and a passive actuator with an
     empty input block precede them, so that actuator id, control address and output address of A and the motor are pairwise different."""
     ck = Checker('act', tier, timeout_s=120, semantics='real')
@@ -68,19 +73,20 @@ def unit_act(tier, gain, bias, dyn, dyn1='mjDYN_NONE', family='force', shifted=T
     cadr = [sum(cnum[:i]) for i in range(nact)]; oadr = [sum(onum[:i]) for i in range(nact)]; nu = sum(cnum); nout = sum(onum)
     actnum = [0] * nf + [na_of(dyn), na_of(dyn1)]; actadr = []; a_ = 0
     for n_ in actnum: actadr.append(a_ if n_ else -1); a_ += n_
-    na = a_; nv = 2
+    na = a_; nv = 4 if ball else 2          # `ball`: a ball joint (3 dofs) precedes the hinge, so joint id 1 has dof address 3
+    d1 = 3 if ball else 1
     rownnz = [0] * (nout - 2) + [2, 1]; rowadr = [0] * (nout - 2) + [0, 2]
-    sizes = {'nu': nu, 'na': na, 'nactuator': nact, 'nout': nout, 'nv': nv, 'nq': nv, 'njnt': 2, 'nbody': 3, 'nJmom': 3}
+    sizes = {'nu': nu, 'na': na, 'nactuator': nact, 'nout': nout, 'nv': nv, 'nq': nv + (1 if ball else 0), 'njnt': 2, 'nbody': 3, 'nJmom': 3}
     M, _ = W.full_struct(w, L, 'mjModel_', 'MJMODEL_POINTERS', sizes, 'm', default_size=0,
                          symbolic=('actuator_ctrlrange', 'actuator_ctrllimited', 'actuator_forcerange', 'actuator_forcelimited', 'actuator_gainprm', 'actuator_biasprm', 'actuator_dynprm', 'actuator_actearly',
                                    'actuator_actlimited', 'actuator_actrange', 'actuator_group', 'jnt_actfrclimited', 'jnt_actfrcrange'),
                          values={'actuator_ctrladr': cadr, 'actuator_ctrlnum': cnum, 'actuator_outadr': oadr, 'actuator_outnum': onum, 'actuator_actadr': actadr, 'actuator_actnum': actnum,
                                  'actuator_gaintype': [KG[g] for g, _, _ in front] + [KG[gain], KG['mjGAIN_FIXED']], 'actuator_biastype': [KB['mjBIAS_NONE']] * nf + [KB[bias], KB['mjBIAS_NONE']],
                                  'actuator_dyntype': [KY['mjDYN_NONE']] * nf + [KY[dyn], KY[dyn1]], 'actuator_trntype': [KT['mjTRN_JOINT']] * nact, 'actuator_trnid': [0, -1] * nact,
-                                 'actuator_plugin': [-1] * nact, 'actuator_delay': [0.0] * nact, 'jnt_type': [KJ['mjJNT_SLIDE'], KJ['mjJNT_HINGE']], 'jnt_dofadr': [0, 1], 'jnt_qposadr': [0, 1], 'jnt_actgravcomp': [0, 0]})
+                                 'actuator_plugin': [-1] * nact, 'actuator_delay': [0.0] * nact, 'jnt_type': [KJ['mjJNT_BALL'] if ball else KJ['mjJNT_SLIDE'], KJ['mjJNT_HINGE']], 'jnt_dofadr': [0, d1], 'jnt_qposadr': [0, 4 if ball else 1], 'jnt_actgravcomp': [0, 0]})
     D, _ = W.full_struct(w, L, 'mjData_', 'MJDATA_POINTERS', sizes, 'd', default_size=0,
                          symbolic=('ctrl', 'act', 'act_dot', 'actuator_length', 'actuator_velocity', 'actuator_force', 'qfrc_actuator', 'actuator_moment'),
-                         values={'moment_rownnz': rownnz, 'moment_rowadr': rowadr, 'moment_colind': [0, 1, 1]})
+                         values={'moment_rownnz': rownnz, 'moment_rowadr': rowadr, 'moment_colind': [0, d1, d1]})
     ar = w.obj('arena', 8192).zeros(); D.o.put(D.off('arena'), 'ptr', (ar, 0)); D.set('narena', 8192)
     dis = M.sym('opt.disableflags', 'disableflags'); M.set('opt.enableflags', 0); grp = M.sym('opt.disableactuator', 'disableactuator'); h = M.sym('opt.timestep', 'h'); D.sym('time', 'time')
     M.set('flg_gravcomp', 0)
@@ -105,6 +111,7 @@ def unit_act(tier, gain, bias, dyn, dyn1='mjDYN_NONE', family='force', shifted=T
         # the SO(3) actuator in front is switched off through its group (30), the passive one has no input
         pre += [A['actuator_group'][0] == 30 if j == 0 else A['actuator_group'][j] == -1 for j in range(nf)] if False else []
     if 'clampflag' not in free: pre.append((dis & CL) == 0)
+    if ball: pre.append(A['jnt_actfrclimited'][0] == 0)      # actuatorfrcrange applies to scalar joints
     pre.append((dis & AC) != 0 if family == 'off' else (dis & AC) == 0)
     if family != 'ctrl': pre += [z3.And(c <= RV(1e10), c >= -RV(1e10)) for c in V['ctrl']]       # bad controls are the subject of the ctrl family
     if shifted:
@@ -162,22 +169,24 @@ def unit_act(tier, gain, bias, dyn, dyn1='mjDYN_NONE', family='force', shifted=T
         f = ite(on('actuator_forcelimited', i), clip(f, A['actuator_forcerange'][2 * i], A['actuator_forcerange'][2 * i + 1]), f)
         frc[o] = f
     mom = V['actuator_moment']
-    q = [mom[0] * frc[oadr[ia]], mom[1] * frc[oadr[ia]] + mom[2] * frc[oadr[im]]]
-    q = [ite(on('jnt_actfrclimited', j), clip(q[j], A['jnt_actfrcrange'][2 * j], A['jnt_actfrcrange'][2 * j + 1]), q[j]) for j in range(2)]
+    q = [z3.RealVal(0)] * nv
+    q[0] = mom[0] * frc[oadr[ia]]; q[d1] = mom[1] * frc[oadr[ia]] + mom[2] * frc[oadr[im]]
+    for j, dj in ((0, 0), (1, d1)):      # joint j owns the range entry j and (for these scalar joints / the first dof of the ball) dof address dj
+        q[dj] = ite(on('jnt_actfrclimited', j), clip(q[dj], A['jnt_actfrcrange'][2 * j], A['jnt_actfrcrange'][2 * j + 1]), q[dj])
     off = z3.BoolVal(family == 'off')
     nret = 0
     for r in res:
         if r.kind != 'return': continue
         nret += 1
         ld = lambda nm, i: ex.load(r.state, w.P(D.arrays[nm][0], 8 * i), FpT('double'))
-        F = [ld('actuator_force', i) for i in range(nout)]; Q = [ld('qfrc_actuator', i) for i in range(2)]; AD = [ld('act_dot', a) for a in range(na)]
-        outs = [('force%d' % i, D.arrays['actuator_force'][0], 8 * i, 'f64', F[i]) for i in range(nout)] + [('qfrc%d' % i, D.arrays['qfrc_actuator'][0], 8 * i, 'f64', Q[i]) for i in range(2)] + \
+        F = [ld('actuator_force', i) for i in range(nout)]; Q = [ld('qfrc_actuator', i) for i in range(nv)]; AD = [ld('act_dot', a) for a in range(na)]
+        outs = [('force%d' % i, D.arrays['actuator_force'][0], 8 * i, 'f64', F[i]) for i in range(nout)] + [('qfrc%d' % i, D.arrays['qfrc_actuator'][0], 8 * i, 'f64', Q[i]) for i in range(nv)] + \
                [('act_dot%d' % a, D.arrays['act_dot'][0], 8 * a, 'f64', AD[a]) for a in range(na)]
         rp = W.make_replay(so(), 'mj_fwdActuation', w, args, outputs=outs, semantics='real')
         pc = r.state.pc
         ck.prove('actuator_force (every output slot) = clamp_forcerange(gain*input + bias) of the actuator owning the slot, 0 for a disabled group or with actuation disabled', pc, z3.And(*[F[o] == ite(off, z3.RealVal(0), frc[o]) for o in range(nout)]),
                  site='mj_fwdActuation:force', decode=dec, replay=rp)
-        ck.prove('qfrc_actuator = clamp_jnt(moment^T force)', pc, z3.And(*[Q[i] == ite(off, z3.RealVal(0), q[i]) for i in range(2)]), site='mj_fwdActuation:qfrc', decode=dec, replay=rp)
+        ck.prove('qfrc_actuator = clamp_jnt(moment^T force)', pc, z3.And(*[Q[i] == ite(off, z3.RealVal(0), q[i]) for i in range(nv)]), site='mj_fwdActuation:qfrc', decode=dec, replay=rp)
         rest = [z3.Implies(z3.And(A['actuator_forcelimited'][i] != 0, z3.Not(off)), z3.And(F[oadr[i]] >= A['actuator_forcerange'][2 * i], F[oadr[i]] <= A['actuator_forcerange'][2 * i + 1])) for i in (ia, im)]
         rest += [AD[a] == ite(off, V['act_dot'][a], adot[a]) for a in range(na)]
         rest += [z3.BoolVal(('mj_warning',) in r.state.log) == z3.And(z3.Not(off), anybad)]
@@ -189,14 +198,58 @@ def unit_act(tier, gain, bias, dyn, dyn1='mjDYN_NONE', family='force', shifted=T
     if family == 'force': ck.reach('disabled group', pre + [A['actuator_group'][ia] == 3, (grp & 8) != 0]); ck.reach('force limited', pre + [A['actuator_forcelimited'][ia] == 1])
     if family == 'qfrc': ck.reach('joint force limited', pre + [A['jnt_actfrclimited'][1] == 1])
     ck.reach('family preconditions', pre)
-    ck.memory_obligations(res, decode=dec)
+    ck.memory_obligations(res, decode=dec, replay=W.make_asan_replay(so_asan, [('mj_fwdActuation', args, 'void')], w))
     return ck
+
+
+def so_misc():
+    if 'som' not in _c: _c['som'] = build.native_lib(['src/engine/engine_util_misc.c'], ['src/engine/engine_util_blas.c', 'src/engine/engine_util_errmem.c'], name='misc_muscle')
+    return _c['som']
+
+
+def unit_muscle_dyn(tier, smooth):
+    """mju_muscleDynamics against the documented first-order filter (doc/modeling.rst): d act/dt = (clip(ctrl,0,1) - act) / tau(ctrl, act)"""
+    ck = Checker('muscleDynamics_%s' % ('smooth' if smooth else 'hard'), tier, timeout_s=120, semantics='real')
+    w = W.World('real')
+    po, prm = w.arr('prm', 'f64', 3)
+    ctrl = z3.Real('ctrl'); act = z3.Real('act'); w.syms += [('ctrl', 'f64', ctrl), ('act', 'f64', act)]
+    ta, td, sm = prm
+    pre = [ta > 0, td > 0, sm > RV(1e-15) if smooth else sm == 0]
+    ex = llsym.Exec(mod_misc(), fpmode='real', loop_bound=8); st = w.to_state(ex); st.pc += pre
+    res = ex.run('@mju_muscleDynamics', [ctrl, act, w.P(po)], st); ck.note_results(ex, res)
+    args = [('f64', ctrl), ('f64', act), ('ptr', (po, 0))]
+    dec = lambda mdl: {'ctrl': str(W.evalnum(mdl, ctrl)), 'act': str(W.evalnum(mdl, act)), 'prm': [str(W.evalnum(mdl, x)) for x in prm]}
+    u = clip(ctrl, z3.RealVal(0), z3.RealVal(1)); exc = u - act
+    MINV = RV(1e-15)
+    for r in res:
+        if r.kind != 'return': continue
+        rp = W.make_replay(so_misc(), 'mju_muscleDynamics', w, args, restype='f64', ret_term=r.value, semantics='real')
+        pc = r.state.pc
+        t_act = ta * (0.5 + 1.5 * act); t_de = td / (0.5 + 1.5 * act)
+        if not smooth:
+            tau = z3.If(exc > 0, t_act, t_de); tau = z3.If(tau > MINV, tau, MINV)
+            ck.prove('muscle dynamics (hard switching), act in [0,1]: act_dot = (clip(ctrl) - act) / tau with tau = tau_act (0.5 + 1.5 act) when exciting, tau_deact / (0.5 + 1.5 act) otherwise', pc + [act >= 0, act <= 1],
+                     r.value == exc / tau, site='mju_muscleDynamics:law', decode=dec, replay=rp)
+        else:
+            lo = z3.If(t_act < t_de, t_act, t_de); hi = z3.If(t_act < t_de, t_de, t_act)
+            lo = z3.If(lo > MINV, lo, MINV); hi = z3.If(hi > MINV, hi, MINV)
+            ck.prove('muscle dynamics (smooth switching), act in [0,1]: act_dot = (clip(ctrl) - act) / tau with tau between the activation and deactivation time constants', pc + [act >= 0, act <= 1, exc != 0],
+                     z3.If(exc > 0, z3.And(r.value <= exc / lo, r.value >= exc / hi), z3.And(r.value >= exc / lo, r.value <= exc / hi)), site='mju_muscleDynamics:law-smooth', decode=dec, replay=rp)
+        ck.prove('muscle dynamics: for ANY activation (also outside [0,1]) the activation moves towards the clamped control: sign(act_dot) = sign(clip(ctrl) - act)', pc,
+                 z3.And(z3.Implies(exc > 0, r.value > 0), z3.Implies(exc < 0, r.value < 0), z3.Implies(exc == 0, r.value == 0)), site='mju_muscleDynamics:sign', decode=dec, replay=rp)
+    ck.reach('activation above 1', pre + [act > 1]); ck.memory_obligations(res, decode=dec)
+    return ck
+
+
+def mod_misc():
+    if 'mm' not in _c: _c['mm'] = ir.load(['src/engine/engine_util_misc.c', 'src/engine/engine_util_blas.c'])
+    return _c['mm']
 
 
 def units(tier):
     u = []
-    def add(g, b, dy, d1, fam, shifted=True):
-        u.append(('act_%s_%s_%s_%s_%s%s' % (g[7:], b[7:], dy[6:], d1[6:], fam, '' if shifted else '_plain'), 'unit_act', {'gain': g, 'bias': b, 'dyn': dy, 'dyn1': d1, 'family': fam, 'shifted': shifted}))
+    def add(g, b, dy, d1, fam, shifted=True, ball=False):
+        u.append(('act_%s_%s_%s_%s_%s%s%s' % (g[7:], b[7:], dy[6:], d1[6:], fam, '' if shifted else '_plain', '_ball' if ball else ''), 'unit_act', {'gain': g, 'bias': b, 'dyn': dy, 'dyn1': d1, 'family': fam, 'shifted': shifted, 'ball': ball}))
     for g in ('mjGAIN_FIXED', 'mjGAIN_AFFINE'):
         for b in ('mjBIAS_NONE', 'mjBIAS_AFFINE'):
             for dy in ('mjDYN_NONE', 'mjDYN_INTEGRATOR', 'mjDYN_FILTER'):
@@ -204,7 +257,9 @@ def units(tier):
     for dy in ('mjDYN_NONE', 'mjDYN_INTEGRATOR', 'mjDYN_FILTER'):
         add('mjGAIN_FIXED', 'mjBIAS_NONE', dy, 'mjDYN_NONE', 'ctrl'); add('mjGAIN_AFFINE', 'mjBIAS_AFFINE', dy, 'mjDYN_NONE', 'qfrc')
     add('mjGAIN_AFFINE', 'mjBIAS_AFFINE', 'mjDYN_FILTER', 'mjDYN_NONE', 'off')
+    add('mjGAIN_FIXED', 'mjBIAS_NONE', 'mjDYN_NONE', 'mjDYN_NONE', 'qfrc', ball=True); add('mjGAIN_AFFINE', 'mjBIAS_AFFINE', 'mjDYN_INTEGRATOR', 'mjDYN_NONE', 'qfrc', ball=True)
     add('mjGAIN_AFFINE', 'mjBIAS_AFFINE', 'mjDYN_FILTER', 'mjDYN_NONE', 'force', shifted=False)
+    u += [('muscleDynamics_hard', 'unit_muscle_dyn', {'smooth': False}), ('muscleDynamics_smooth', 'unit_muscle_dyn', {'smooth': True})]
     if tier != 'quick':
         for dy in ('mjDYN_NONE', 'mjDYN_INTEGRATOR', 'mjDYN_FILTER'):
             for d1 in ('mjDYN_INTEGRATOR', 'mjDYN_FILTER'):
